@@ -161,7 +161,7 @@ def run_check(prop, tier, seed, workers=None, budget=None, keep=False):
             sig = (v["sub_claim"], v["failure_mode"], tuple(v["tags"]))
             groups.setdefault(sig, []).append(v)
 
-    rdir = os.path.join(ROOT, "replays", prop)
+    rdir = os.path.join(os.environ.get("VF_REPLAY_DIR", os.path.join(ROOT, "replays")), prop)
     os.makedirs(rdir, exist_ok=True)
     lines = []
     for kid, vs in sorted(kfound.items()):
@@ -226,8 +226,9 @@ def run_check(prop, tier, seed, workers=None, budget=None, keep=False):
         "wall_s": round(time.time() - t0, 2),
         "violations": sum(len(v) for v in groups.values()),
     }
-    os.makedirs(os.path.join(ROOT, "evidence"), exist_ok=True)
-    json.dump(ev, open(os.path.join(ROOT, "evidence", prop + ".json"), "w"), indent=1, sort_keys=True)
+    evdir = os.environ.get("VF_EVIDENCE_DIR", os.path.join(ROOT, "evidence"))
+    os.makedirs(evdir, exist_ok=True)
+    json.dump(ev, open(os.path.join(evdir, prop + ".json"), "w"), indent=1, sort_keys=True)
 
     for l in lines:
         print(l)
